@@ -229,7 +229,9 @@ func (mbs *metadataPartStorage) createRangeReader(ctx context.Context, tx databa
 	if endByte != nil {
 		globalEnd = *endByte
 	}
-	if globalStart >= globalEnd {
+	// An empty range is invalid, except when no range was requested at all:
+	// reading a zero-length object as a whole yields zero bytes.
+	if globalStart >= globalEnd && (startByte != nil || endByte != nil) {
 		return nil, storage.ErrInvalidRange
 	}
 
